@@ -5,7 +5,7 @@ import ast
 
 from . import e2_formula as F
 from .core import AnchorError, Unsupported
-from .e1_srcmodel import dotted, walk_no_nested, find_nodes
+from .e1_srcmodel import dotted, walk_no_nested, find_nodes, utext
 from .e2_eval import Evaluator, is_unknown, need
 
 SRS = "pyyeti/srs.py"
@@ -342,7 +342,7 @@ def r4_windows(ctx):
     ok = len(sdef) == 1 and ast.unparse(sdef[0].value).replace(" ", "") == "Mifptr==2else0"
     ctx.check(ok, "srs: the response is evaluated from S = M for the residual window and from 0 otherwise", sdef[0] if sdef else fn)
     ptrs = ctx.src.func(SRS, "_process_inputs")
-    ok = "ptr={'primary':0,'total':1,'residual':2}" in ast.unparse(ptrs).replace(" ", "")
+    ok = "ptr={'primary':0,'total':1,'residual':2}" in utext(ptrs)
     ctx.check(ok, "_process_inputs: primary -> 0, total -> 1, residual -> 2", ptrs)
     # history allocation and time vector cover exactly N - S samples
     gr = [s_ for s_ in body if isinstance(s_, ast.If) and ast.unparse(s_.test) == "getresp"]
@@ -354,7 +354,7 @@ def r4_windows(ctx):
         ctx.error("srs: getresp allocation block", fn)
     # _add_one_cycle: zeros (minus s1 for steady) for one cycle of the lowest non-zero frequency
     ac = ctx.src.func(SRS, "_add_one_cycle")
-    t = ast.unparse(ac).replace(" ", "").replace("'", '"')
+    t = utext(ac).replace("'", '"')
     ok = "nzeros=int(np.ceil(sr/minf))" in t and "minf=freq[pv].min()" in t and "pv=(freq>0).nonzero()[0]" in t
     ctx.check(ok, "_add_one_cycle: pads ceil(sr / lowest non-zero frequency) samples", ac)
     ok = 'ific=="steady":' in t and "sig=np.vstack((sig,z-s1))" in t and "sig=np.vstack((sig,z))" in t
